@@ -82,8 +82,8 @@ PROPS = {
         jobs=[dict(pkg="./filters/gated", harness=["gated/gated.go", "gated/concurrent.go"], entries=r"^H_C11_|^H_C17_", params=dict(quick=dict(G=2, E=2, GC=1, EC=1), thorough=dict(G=3, E=2, GC=2, EC=2)), shards=dict(quick=4, thorough=16, H_C11_concurrent=16),
                    maxswitches=dict(quick=3, thorough=4), instrument_locks=True),
               # histories from the zero-value filter against a reference model of the open groups
-              dict(pkg="./filters/gated", harness=["gated/gated.go", "gated/history.go"], entries=r"^H_C11_history_vs_model$", params=dict(quick=dict(H=4), thorough=dict(H=5)), shards=dict(quick=16, thorough=16))],
-        must_reach=["C11.history.end", "C11.process.flush", "C11.process.gated", "C11.process.error", "C11.passthrough.plain", "C11.passthrough.noid", "C17.flushall.ok", "C17.flushall.error", "C11.concurrent.end"],
+              dict(pkg="./filters/gated", harness=["gated/gated.go", "gated/history.go"], entries=r"^H_C11_history_vs_model$|^H_C17_staggered_expiry$", params=dict(quick=dict(H=4), thorough=dict(H=5)), shards=dict(quick=16, thorough=16, H_C17_staggered_expiry=1))],
+        must_reach=["C11.history.end", "C17.staggered.end", "C11.process.flush", "C11.process.gated", "C11.process.error", "C11.passthrough.plain", "C11.passthrough.noid", "C17.flushall.ok", "C17.flushall.error", "C11.concurrent.end"],
         bounds=dict(quick="<=2 open groups x 1..2 events; histories of 4 operations (8 kinds, ids a/b, arbitrary clock advances) from the zero-value filter", thorough="<=3 groups x 1..2 events; histories of 5 operations"),
         assumptions=["A-gated-mono: NowFunc non-decreasing and Expiration constant while groups are open (expiry instants non-decreasing along the list)"],
         trusted_base=COMMON_TRUST,
@@ -98,7 +98,7 @@ PROPS["C18"] = dict(
     assumptions=["event type non-empty (only such events come from Broker.Send)", "JSON text validity is trusted encoding/json", "url.URL.String modelled for path-only URLs as the path"],
     trusted_base=COMMON_TRUST,
 )
-PROPS["C17"] = dict(PROPS["C11"], must_reach=["C17.flushall.ok", "C11.process.gated", "C17.flushall.after-earlier-close", "C11.history.end"])
+PROPS["C17"] = dict(PROPS["C11"], must_reach=["C17.flushall.ok", "C11.process.gated", "C17.flushall.after-earlier-close", "C11.history.end", "C17.staggered.end"])
 PROPS["C14"] = dict(
     level="other",
     explanation="JSONFormatter / JSONFormatterFilter / Filter / Event.FormattedAs / Event.Format executed symbolically over arbitrary events (symbolic type, time, payload fields, nil or <=2-entry format table) and predicate outcomes; json.Encoder.Encode is an uninterpreted deterministic function of the flattened value (including the struct's field tags), so 'the stored bytes are the encoding of exactly {created_at,event_type,payload}' is a term equality against an independently written reference encoding.",
